@@ -46,6 +46,8 @@ PATCHES = {
     "ret": [["p", 0], ["ret"]],
     "ijmp": [["p", 0], ["ijmp"]],
     "callX": [["call", "X"], ["p", 0]],
+    "callG2": [["call", "G"], ["p", 0], ["call", "G"], ["p", 0]],  # one patch, two calls of the same function
+    "callX2": [["call", "X"], ["p", 0], ["call", "X"], ["p", 0]],
 }
 
 
